@@ -26,7 +26,9 @@ CHECKS = {
 		note="Trusts the simulator kernel (virtual time, baton-passed threads) and the oracle in engines/clck.py; tick period accepted within 4 615 000 +/- 2 ns; CPython 3.12 semantics."),
 }
 
-PENDING = {}
+PENDING = {pid: "check under construction (engine `%s`, see DESIGN.md §5); not claimed yet" % eng for pid, eng in {
+	"C02": "um", "C03": "um", "C05": "um", "C06": "sercomm", "C08": "tdma", "C10": "um", "C12": "um",
+	"C14": "um+dump+trxcon", "C15": "dump", "C18": "um"}.items()}
 
 
 def main():
